@@ -567,7 +567,7 @@ def sample_laws(run, groups):
 def correspond(run: lib.Run):
     mode = _STATE.get("none_mode", "echo")
     strict_none = mode == "strict"
-    n_groups = run.budget(45, 420)
+    n_groups = run.budget(90, 900)
     groups, dist = generate(run, n_groups, strict_none, values_per_root=run.budget(3, 4))
     _STATE["groups"] = groups
     bad, sets_bad = evaluate(run, groups, strict_none, "c06")
